@@ -294,6 +294,16 @@ class Runner:
             p = sb.path(c['path'])
             if os.path.lexists(p): os.unlink(p)
             return 0, '', ''
+        if c.get('tmp_blocked'):
+            # something (a directory) sits at the hidden temporary name a workspace copy of the path is written under
+            for bp in c['tmp_blocked']:
+                d, f = os.path.split(sb.path(bp))
+                os.makedirs(os.path.join(d, f'.{f}.xvc-tmp'), exist_ok=True)
+        if c.get('fsize_limit'):
+            # every write beyond the limit fails with EFBIG (SIGXFSZ ignored): like a full disk or a quota
+            import shlex
+            argv = [self.xvc] + self.cfg_args(cfg) + xvc_args(c)
+            return sb.run(['bash', '-c', f"trap '' XFSZ; ulimit -f {int(c['fsize_limit'])}; exec " + ' '.join(shlex.quote(a) for a in argv)])
         return sb.x(*(self.cfg_args(cfg) + xvc_args(c)))
 
     @staticmethod
@@ -321,7 +331,7 @@ class Runner:
                 os.utime(p, ns=(t, t))
                 state['mine'].add(t)
 
-    def run_history(self, name, cfg, history, hooks=None, keep=False):
+    def run_history(self, name, cfg, history, hooks=None, keep=False, stop_at_panic=True):
         """returns list of steps: dict(cmd, rc, err, pre: Obs, post: Obs, abs: str)"""
         sb = self.new_sandbox(name)
         table = Table()
@@ -329,7 +339,7 @@ class Runner:
         stamps = {'k': 0, 'mine': set()}
         pre = Obs(sb)
         for i, c in enumerate(history):
-            if c['op'] == 'write':
+            if c['op'] == 'write' and not c.get('no_table'):
                 table.add(c['bytes'])
             rc, out, err = self.exec_cmd(sb, cfg, c, pre)
             self.restamp(sb, stamps)
@@ -360,7 +370,7 @@ class Runner:
                 for h in hooks:
                     h(sb, cfg, history, steps, table)
             pre = post
-            if rc not in (0, 1):          # panic / signal / timeout: the compared history ends here
+            if rc not in (0, 1) and stop_at_panic:          # panic / signal / timeout: the compared history ends here
                 break
         if keep:
             return steps, sb, table
